@@ -515,7 +515,8 @@ func c14KindClass(kind string) string {
 
 // c14KeyPart gives the key fragments of one unready change: full (with the change kind) and abstract (with the
 // class of the kind). States with one unready change are keyed with the full fragment, so that every ordered pair
-// of menu requests is run; states with two or more are keyed with the abstract one.
+// of menu requests is run; states with two or more are keyed with the abstract one; states with three or more
+// unready changes are merged over the statuses as well (the conflict code reads a status only through Ready()).
 func c14KeyPart(c c14ChgObs) (full, abstract, suffix string) {
 	x := ""
 	if c.Exclusive {
@@ -1106,11 +1107,14 @@ type c14ChgStat struct {
 func c14StateKey(l []c14ChgStat, snaps string) string {
 	var parts []string
 	for _, u := range l {
-		pre := u.Full
+		pre, status := u.Full, u.Status
 		if len(l) >= 2 {
 			pre = u.Abs
 		}
-		parts = append(parts, pre+u.Status+u.Suffix)
+		if len(l) >= 3 {
+			status = "*"
+		}
+		parts = append(parts, pre+status+u.Suffix)
 	}
 	return c14JoinKey(parts, snaps)
 }
@@ -1400,10 +1404,10 @@ func (x *c14Explorer) exchange(level int, found []*c14State, partial bool) (all 
 	return all, anyPartial
 }
 
-const c14Rule = "breadth-first over request sequences up to the bound (a pre-existing exclusive/exempt change counts as one request), every request of the menu in every state, progress events (half done / being undone / [waiting] / finished / failed, on any unready change) between requests without counting towards the bound; successors by replay on a fresh fixture; states deduplicated on (kind [class of the kind when two or more changes are unready], status, affected snaps by both decodings, exclusive?) of the unready changes + snap records, level-synchronous across the 16 worker processes (the states found at a level are exchanged and merged before the next level is dealt out); non-trivial = requests issued while at least one change is unready, or with a stale-record callback"
+const c14Rule = "breadth-first over request sequences up to the bound (a pre-existing exclusive/exempt change counts as one request), every request of the menu in every state, progress events (half done / being undone / [waiting] / finished / failed, on any unready change) between requests without counting towards the bound; successors by replay on a fresh fixture; states deduplicated on (kind [class of the kind when two or more changes are unready], status [merged when three or more are unready], affected snaps by both decodings, exclusive?) of the unready changes + snap records, level-synchronous across the 16 worker processes (the states found at a level are exchanged and merged before the next level is dealt out); non-trivial = requests issued while at least one change is unready, or with a stale-record callback"
 
 func (s *verifC14Suite) TestVerifC14(c *C) {
-	r := eng.Start("C14", "model_checking", 240*time.Second, 14*time.Minute)
+	r := eng.Start("C14", "model_checking", 300*time.Second, 14*time.Minute) // quick: ~30 s on 16 idle cores (17.4k fixtures of ~5 ms + 3 requests each); the soft budget leaves room for a loaded machine
 	c14InitTmp()
 	r.Assume("the package's fake store stands for the store (it is called with the state unlocked; a wrapper runs the stale-record callback there and gives snapd revisions the versions 2.(50+revision))",
 		"changes do not run: an accepted request is followed by what the API layer does (one new change of the API's kind holding all returned task sets); progress is modelled by rewriting the task statuses of one unready change (Done+Doing+Do, Undoing+Error+Hold, Done+Wait+Do, all Done, Undone+Error+Hold)",
@@ -1601,10 +1605,6 @@ func (s *verifC14Suite) TestVerifC14(c *C) {
 		}
 		x.completed = level
 		if level < depth {
-			if thorough && level >= 3 {
-				// the fourth request of a sequence sees "waiting" only on changes that were waiting before the third
-				x.events = []string{"doing", "undoing", "done", "error"}
-			}
 			frontier = x.closure(merged)
 		}
 		if shard == 0 {
